@@ -396,6 +396,12 @@ def deserialize_bytes(stream, **kwargs):
 
     return stream.read(length)
 
+def _hashable(obj):
+    """ sequences decode as lists, convert them back to tuples for use as map keys and set members """
+    if isinstance(obj, list):
+        return tuple(_hashable(o) for o in obj)
+    return obj
+
 def deserialize_map(stream, **kwargs):
     length = deserialize_value(stream, **kwargs)
 
@@ -409,7 +415,7 @@ def deserialize_map(stream, **kwargs):
     for i in range(length):
         k = deserialize_value(stream, **kwargs)
         v = deserialize_value(stream, **kwargs)
-        obj[k] = v
+        obj[_hashable(k)] = v
 
     return obj
 
@@ -442,7 +448,7 @@ def deserialize_set(stream, **kwargs):
     if length > MAX_ARRAY_LENGTH:
         raise ValueError("set length too large: %d" % length)
 
-    obj = set([deserialize_value(stream, **kwargs) for i in range(length)])
+    obj = set([_hashable(deserialize_value(stream, **kwargs)) for i in range(length)])
 
     return obj
 
